@@ -183,6 +183,10 @@ pub fn run(ctx: &Ctx) {
     ctx.assume("reference SM3 (harness/src/refimpl/sm3.rs) anchored on the two GB/T 32905 Annex A vectors and the OpenSSL corpus");
     ctx.assume("lengths beyond 2^32+1 bytes (quantifier goes to 2^61) are memory-bound and not explored");
 
+    ctx.cold("cold_start_lengths", "sm3_hash as the first call of a fresh process, lengths around the padding boundaries", || {
+        [0usize, 1, 3, 55, 56, 57, 62, 63, 64, 65, 119, 120, 121, 128, 1000].iter().map(|len| Msg { len: *len, class: 3, seed: *len as u64 ^ 0xc01d }).collect()
+    }, check_msg);
+
     ctx.exhaustive(
         "lengths_0_4096",
         "all lengths 0..=4096 x 4 content classes",
